@@ -4,7 +4,8 @@
 MAPPER_ASSUME = [
     "the cfg(ellbur_totalmapper_verif) snapshot hook copies the mapper state faithfully",
     "besides the random walks, a share of the generated layouts with at most 7 (quick) / 8 (thorough) keys in the alphabet is explored exhaustively: breadth-first over every reachable (mapper state, monitor state) with at most 3 / 4 keys held, every operation applied once in every state (counters exhaustive_*)",
-    "histories are sampled (seeded random walks with coverage-guided restarts), layouts are small, at most 4 (quick) / 5 (thorough) keys held",
+    "histories are sampled (seeded random walks with coverage-guided restarts); most layouts are small (1-7 mappings over 5-9 keys, at most 4 / 5 keys held), one in twenty is wide (generator D: up to 10 mappings, outputs of up to 18 keys, repeat chords of up to 12 keys, up to 20 keys held)",
+    "keys: per layout a handful, across layouts the whole key-code space (all eight modifiers, non-modifier layer keys, media and vendor keys, codes above 255 and above 561, families of keys that coincide in their low 7 or 8 bits)",
 ]
 
 MAPPER_NOTE = ("Trusted: the snapshot hook, the monitor's own fold of the event stream, and the notions 'acted' / 'fired' / 'in effect' "
@@ -50,8 +51,8 @@ PROPS = {
 
 LOOP_NOTE = ("Trusted: the scripted-driver adapter hook, the virtual clock (clock_gettime defined by the harness binary; a real-clock bracket run guards the assumption that the loop "
              "reads time only through it), the 60-line loop-contract reference, which uses the real Mapper for key semantics. Schedules are sampled.")
-LOOP_ASSUME = ["the loop reads time only through clock_gettime", "edge-triggered readiness as modelled by the scripted world (arrivals at poll, trickle during a drain, phantom readiness)",
-               "schedules and histories are sampled; at most 4 (quick) / 5 (thorough) keys held"]
+LOOP_ASSUME = ["the loop reads time only through clock_gettime", "edge-triggered readiness as modelled by the scripted world (arrivals at poll, trickle during a drain, phantom readiness, one signal interruption on the first wait after an arrival)",
+               "schedules and histories are sampled: mostly 4-60 events with at most 4 / 5 keys held and chunks of 1-8 events; at low frequency chunks of 9-24, 100-300 and 1025-1400 events, histories of 1100-2600 events, histories with up to 24 keys held, injected lateness of 3 / 40 / 700 ms and one-off stalls of 0.15-30 s"]
 
 def loop(level, rule, floors_q, floors_t, text, technique, evaluations=("schedules", "metamorphic_runs")):
     return {"engine": "loop", "level": level, "evaluations": list(evaluations), "rule": rule, "floors": {"quick": floors_q, "thorough": floors_t},
